@@ -79,7 +79,8 @@ void pev_name(const pev *e, char *out, size_t cap) {
 
 void drv_linux_deliver(int iface, const uint8_t *frame, size_t len) {
     vf_iface *f = &W.iface[iface];
-    if (len > f->mtu) len = f->mtu;                /* recvfrom(..., MTU) truncates */
+    size_t eff = W.env.mtu_alt ? (f->mtu == 1500 ? 9216 : 1500) : f->mtu;      /* the MTU the interface has NOW (environment event "MTU is changed") */
+    if (len > eff) len = eff;                      /* recvfrom(..., MTU) truncates */
     memcpy(f->recv, frame, len);
     f->recv_prev_len = len;
     W.cur_request++;
@@ -147,6 +148,7 @@ int sigma_build(pev *out, int cap, int variant) {
     if (variant == SIGMA_SMALL) {
         ADD(ev_discover(0, ST_M1, ST_M1, 0x1234, 1));
         ADD(ev_discover(1, ST_M2, ST_BR, 0xFFFF, 0));
+        ADD(ev_discover(1, ST_M2, ST_BR, 0, 3));             /* a quick Discover with generation 0 */
         ADD(ev_discover(0, ST_M2, ST_M2, 0, 1));
         ADD(ev_discover(0, ST_M1, ST_BR, 0x1234, 1));        /* the same mapper through another path */
         ADD(ev_reset(0, ST_M1)); ADD(ev_reset(1, ST_M1));
